@@ -149,6 +149,7 @@ pub fn build_world(rng: &mut Rng) -> (World, Pubkey, Vec<BankSpec>, Pubkey) {
                 0 => now - age_cfg,
                 1 => now - age_cfg - 1,
                 2 => now - age_cfg + 1,
+                3 if rng.chance(1, 2) => now - (*rng.pick(&[1i64 << 16, 1 << 17, 1 << 32])) - rng.below(age_cfg as u64 + 2) as i64,
                 3 => now - 10 * age_cfg,
                 4 => now + 5,
                 _ => now - rng.below(age_cfg as u64 + 1) as i64,
@@ -218,6 +219,7 @@ pub fn build_world(rng: &mut Rng) -> (World, Pubkey, Vec<BankSpec>, Pubkey) {
             let last = match rng.below(8) {
                 0 | 1 => now - age_cfg,
                 2 => now - age_cfg - 1,
+                3 if rng.chance(1, 2) => now - (*rng.pick(&[1i64 << 16, 1 << 17, 1 << 32])) - rng.below(age_cfg as u64 + 2) as i64,
                 3 => now - 100 * age_cfg.max(1),
                 4 => now + 3,
                 _ => now - rng.below(age_cfg as u64 + 1) as i64,
